@@ -50,7 +50,7 @@ def gen_pair(rng, big=False):
         return [Fraction(rng.randint(-4 * lim, 4 * lim), 4) for _ in range(n)]
     # lr0: the node is built and warmed up with another leak rate, then `node.lr = lr` is assigned before the two checked runs
     lr0 = Fraction(rng.randint(1, 8), 8) if rng.random() < 0.4 else None
-    return {"kind": "pair", "lr0": lr0, "warm": c01.rrows(rng, rng.randint(1, 3), d, lim=4) if lr0 is not None else None,
+    return {"kind": "pair", "routes": [rng.choice(ROUTES), rng.choice(ROUTES)], "lr0": lr0, "warm": c01.rrows(rng, rng.randint(1, 3), d, lim=4) if lr0 is not None else None,
             "units": n, "in_dim": d, "W": W, "Win": c01.rmat(rng, n, d, den=4, lim=8),
             "bias": [Fraction(rng.randint(-8, 8), 4) for _ in range(n)], "lr": Fraction(rng.randint(1, 8), 8),
             "act": act, "box": box, "ra": st(), "rb": st(), "X": c01.rrows(rng, T, d, lim=16 if box else 8)}
@@ -69,9 +69,44 @@ def run_pair(c, named=None):
         node.run(farr(c["warm"], d))
         node.lr = float(fr(c["lr"]))       # attribute assignment on the initialised node
     X = farr(c["X"], d)
-    oa = node.run(X, from_state=fvec(c["ra"]).reshape(1, -1))
-    ob = node.run(X, from_state=fvec(c["rb"]).reshape(1, -1))
-    return {"oa": oa.tolist(), "ob": ob.tolist()}
+    routes = c.get("routes") or ["from_state", "from_state"]
+    if not node.is_initialized:
+        node.initialize(X[:1])
+    outs = []
+    for start, route in zip((c["ra"], c["rb"]), routes):
+        # leave a non-zero, unrelated state behind so that a route that ignores the given start state is visible
+        node.run(X[:1] + 1.0)
+        outs.append(start_and_run(node, fvec(start).reshape(1, -1), X, route))
+    return {"oa": outs[0].tolist(), "ob": outs[1].tolist()}
+
+
+ROUTES = ["from_state", "from_state+reset", "reset_to_state", "with_state", "with_state+reset", "call", "call+reset",
+          "model_call+reset", "model_call"]
+
+
+def start_and_run(node, a, X, route):
+    """Give the node the initial state [a] through one of the public routes, then run X.  Returns the (T, units) trajectory."""
+    from reservoirpy.nodes import Input
+    if route == "from_state":
+        return node.run(X, from_state=a)
+    if route == "from_state+reset":            # 'start from a' given together with reset=True: the explicit state wins
+        return node.run(X, from_state=a, reset=True)
+    if route == "reset_to_state":
+        node.reset(to_state=a)
+        return node.run(X)
+    if route in ("with_state", "with_state+reset"):
+        with node.with_state(a, stateful=False, reset=route.endswith("+reset")):
+            return node.run(X)
+    if route in ("call", "call+reset"):
+        rows = [node.call(X[:1], from_state=a, reset=route.endswith("+reset"))]
+        rows += [node.call(X[t:t + 1]) for t in range(1, len(X))]
+        return np.vstack(rows)
+    if route in ("model_call", "model_call+reset"):
+        model = Input(name=uname("src")) >> node
+        rows = [model.call(X[:1], from_state={node.name: a}, reset=route.endswith("+reset"))]
+        rows += [model.call(X[t:t + 1]) for t in range(1, len(X))]
+        return np.vstack(rows)
+    raise ValueError(route)
 
 
 def pair_to_coq(c, o):
@@ -97,6 +132,8 @@ def correspondence(ctx):
         rho = (1 - fr(c["lr"])) + fr(c["lr"]) * sg
         key = "act:%s rho%s1%s" % (c["act"], "<" if rho < 1 else ">=", " lr-reassigned" if c["lr0"] is not None else "")
         dist[key] = dist.get(key, 0) + 1
+        for r in c["routes"]:
+            dist["route:" + r] = dist.get("route:" + r, 0) + 1
         d0 = np.linalg.norm(fvec(c["ra"]) - fvec(c["rb"]))
         dT = np.linalg.norm(np.array(o["oa"][-1]) - np.array(o["ob"][-1]))
         if rho < 1 and d0 > 0 and 0 < dT < d0:
@@ -104,7 +141,7 @@ def correspondence(ctx):
     failing, err = core.run_cases(ctx.pid, IMPORTS, terms, chunk=40)
     return {"evaluations": len(terms), "distinct_nontrivial": len(nt),
             "rule": "pairs of runs of one real Reservoir (40% of them built and warmed up with another lr, then `node.lr = lr` assigned; units 1-5, identity/relu/hard-tanh callables, scalar lr in (0,1], dyadic W) from two "
-                    "from_state start states on the same input; Coq checks model == observed for both, sigma^2 >= Frobenius^2(W), and "
+                    "from_state start states on the same input, each start state injected through a random public route (from_state=, from_state= with reset=True, reset(to_state=), with_state context with/without reset, step-wise Node.call, Model.call with a from_state mapping with/without reset) after an unrelated run left another state behind; Coq checks model == observed for both, sigma^2 >= Frobenius^2(W), and "
                     "dist^2[t] <= ((1-lr)+lr*sigma)^2 dist^2[t-1] for every t (plus the [-1,1] box for hard-tanh) on the model's numbers; "
                     "non-trivial = factor < 1, distinct start states, final distance strictly between 0 and the initial one",
             "samples": keep[:3], "distribution": dist, "tolerance": "1e-9 relative (qclose); inequalities exact in Q",
@@ -133,7 +170,7 @@ def gen_float(rng, T):
     probe = rng.random()
     if probe < 0.4:
         lr0, warm = float(rng.choice([0.1, 0.5, 0.9, 1.0])), g.normal(size=(rng.randint(1, 20), d)).tolist()
-    return {"kind": "float", "lr0": lr0, "warm": warm, "units": n, "in_dim": d, "W": W.tolist(), "sigma": sigma, "Win": g.normal(size=(n, d)).tolist(),
+    return {"kind": "float", "routes": [rng.choice(ROUTES), rng.choice(ROUTES)], "lr0": lr0, "warm": warm, "units": n, "in_dim": d, "W": W.tolist(), "sigma": sigma, "Win": g.normal(size=(n, d)).tolist(),
             "bias": g.normal(size=n).tolist(), "lr": float(rng.choice([1.0, 0.5, 0.1, 0.01, g.uniform(0.01, 1.0)])),
             "act": act, "ra": ra.tolist(), "rb": rb.tolist(), "X": (g.normal(size=(T, d)) * scale).tolist()}
 
@@ -150,6 +187,24 @@ def gen_relr(rng, T):
 
 
 def _judge(c):
+    """C15 quantifies over any two initial states, however they are given to the node.  A violation that disappears when both
+    start states are given by plain from_state= is attributed to the route."""
+    v = _judge0(c)
+    routes = c.get("routes") or []
+    if v is None or all(r == "from_state" for r in routes):
+        return v
+    if _judge0(dict(c, routes=["from_state", "from_state"])) is not None:
+        return v
+    for i, r in enumerate(routes):
+        rr = ["from_state", "from_state"]
+        rr[i] = r
+        if r != "from_state" and _judge0(dict(c, routes=rr)) is not None:
+            return _viol("initial-state-route:%s" % r, "the initial state given through route '%s' is not the state the trajectory starts from -- %s" % (r, v["what"]),
+                         c, v.get("expected"), v.get("observed"))
+    return v
+
+
+def _judge0(c):
     if c.get("kind") == "pair":
         named = None
         sigma = float(np.linalg.svd(farr(c["W"], c["units"]), compute_uv=False)[0]) if np.any(farr(c["W"], c["units"])) else 0.0
